@@ -54,7 +54,7 @@ def alias_case(rng, tier):
     x = rand_coeffs(rng, (D, P) + shape, -2, 2)
     from props import c01
     x[0] = c01.gen_x0(rng, 'nz', (P,) + shape, False)
-    return {'op': 'alias', 'sym': rng.choice(sorted(BIN)), 'mode': rng.choice(['bin', 'inplace-self', 'inplace-buffer', 'inplace-view', 'inplace-dirrev', 'inplace-coefrev', 'kernel']),
+    return {'op': 'alias', 'sym': rng.choice(sorted(BIN)), 'mode': rng.choice(['bin', 'inplace-self', 'inplace-buffer', 'inplace-view', 'inplace-dirrev', 'inplace-coefrev', 'inplace-ndview', 'kernel']),
             'D': D, 'P': P, 'x': x}
 
 
@@ -81,6 +81,15 @@ def alias_fails(ctx, case):
         x = UTPM(x0.copy())
         got = IBIN[sym](x, UTPM(x.data[:, :, ::-1]))   # overlapping reversed view
         want = IBIN[sym](UTPM(x0.copy()), UTPM(x0[:, :, ::-1].copy()))
+    elif mode == 'inplace-ndview':
+        # the right operand is a plain ndarray that views one coefficient of the left operand (x op= x.data[d, p])
+        d_ = ctx.rng.randrange(x0.shape[0]) if ctx.rng.random() < 0.5 else 0
+        p_ = ctx.rng.randrange(x0.shape[1])
+        if sym == 'div' and np.any(np.abs(x0[d_, p_]) < 0.2):
+            return None
+        x = UTPM(x0.copy())
+        got = IBIN[sym](x, x.data[d_, p_])
+        want = IBIN[sym](UTPM(x0.copy()), x0[d_, p_].copy())
     elif mode in ('inplace-dirrev', 'inplace-coefrev'):
         # the right operand is a view of the left one that runs over the direction axis / the coefficient axis backwards
         ax = 1 if mode == 'inplace-dirrev' else 0
